@@ -130,5 +130,7 @@ theorem UQ_mul_vec_M (q p : Vec 4 R) (v : Vec 3 R) : ∀ M, Gen.UQ_mul_vec_M P q
   intro M h; unfold Gen.UQ_mul_vec_M at h; unfold Gen.UQ_mul_vec; simp only [] at h ⊢; cases h
   refine ⟨_, _, rfl, rfl, ?_⟩
   intro i; fin_cases i <;> simp
+theorem Q_inner_MM (q p r s : Vec 4 R) : ∀ M, Gen.Q_inner_MM P q p r s = .ok M → Gen.Q_inner P q r = .ok M.1 ∧ Gen.Q_inner P p s = .ok M.2 := by
+  per_value Gen.Q_inner_MM Gen.Q_inner
 
 end SmVerif.Props.Multi
